@@ -122,6 +122,11 @@ QWidget {
     VfWidget { id: tX1; ival: 2 * (cb.checked as int); onX1Changed: console.log("y") }
     QWidget { id: a1; enabled: !cb.checked; windowTitle: le.text + "1" }
     QGroupBox { id: aWindowT; title: le.text; toolTip: "x" + le.text }
+    // object id + signal name spell the same function name for two different handlers
+    QComboBox { id: name; editable: true; onEditTextChanged: console.log("combo") }
+    QLineEdit { id: nameEdit; onTextChanged: console.log("edit") }
+    QLineEdit { id: search; onReturnPressed: console.log("return") }
+    QPushButton { id: searchReturn; onPressed: console.log("pressed") }
     VfWidget {
         id: g
         font.bold: cb.checked
